@@ -1,13 +1,23 @@
 import TantivyModel.Driver.Proto
 import TantivyModel.Model.AggMerge
+import TantivyModel.Model.AggExtStats
+import TantivyModel.Model.AggRange
 /-!
 Line protocol of the C14 model (sums are exact integers: `M := Int`).
 
   C14 spec   <req> <parts>   evalAgg over all documents of all parts
+  C14 specpv <req> <parts>   evalAggPV (per-value direct computation) over all documents of all parts
   C14 whole  <req> <parts>   finalize (collect all documents)
   C14 merged <req> <parts>   finalize (mergeFruits (parts.map collectSeg))   (with segment truncation)
+  C14 mergedtrim <req> <parts>   top-level composite only: finalize (fold compMergeFruits (parts.map collectSegComposite)) — per-segment eviction and merge-time trim above 2*size
+  C14 mergedevict <req> <parts>   finalize (fold merge (parts.map collectSegEvict)) — eviction at every composite node, no terms cut
+  C14 mergedfull <req> <parts>   finalize (mergeFruits (parts.map collectSegFull)) — terms cut and composite eviction
+  C14 keyasc <req> <parts>   top-level terms, _key ascending or descending, min_doc_count ≤ 1, no terms below: `same` when the truncated
+                             merged segments show the buckets and sum_other_doc_count of evalAggPV, `diff …` otherwise, `n/a` when not applicable
   C14 limit  <n> <req> <parts>   finalizeGuarded n on the merged tree: `ok <res>` | `err <count>`
   C14 defaults <size|_> <segment_size|_> <min_doc_count|_>   size, segment_size, min_doc_count, default bucket limit
+  C14 extstats <sigma*4> <parts of integers>   extended_stats accumulator (Welford + Chan over Rat): count sum Σv² M2 sigma
+  C14 normranges <from:to;…>                    cut points of the normalised range request, or `err` (overlap)
   C14 histpos <interval> <offset> <v>      bucket position
   C14 rangeidx <cuts> <v>                  range bucket index
 
@@ -154,6 +164,10 @@ def handle : List String → String
     match parseReqStr rq, parseParts ps with
     | some r, some parts => showRes r (evalAgg Int r parts.flatten)
     | _, _ => "bad-op"
+  | ["specpv", rq, ps] =>
+    match parseReqStr rq, parseParts ps with
+    | some r, some parts => showRes r (evalAggPV Int r parts.flatten)
+    | _, _ => "bad-op"
   | ["whole", rq, ps] =>
     match parseReqStr rq, parseParts ps with
     | some r, some parts => showRes r (finalize r (collect r parts.flatten))
@@ -162,6 +176,39 @@ def handle : List String → String
     match parseReqStr rq, parseParts ps with
     | some r, some parts => showRes r (finalize r (merged r parts))
     | _, _ => "bad-op"
+  | ["mergedtrim", rq, ps] =>
+    -- a single top-level composite: every segment fruit is trimmed to its own page first
+    match parseReqStr rq, parseParts ps with
+    | some (.composite srcs size after sub), some parts =>
+      let r := Req.composite srcs size after sub
+      let x : Inter Int r := (parts.map (collectSegComposite (M := Int) srcs size after sub)).foldl
+        (compMergeFruits (entryMerge (merge (M := Int) sub)) size after) (empty r)
+      showRes r (finalize r x)
+    | _, _ => "bad-op"
+  | ["mergedevict", rq, ps] =>
+    -- any request: composite eviction at every composite node of every segment fruit (C14_composite_eviction_invisible_anywhere)
+    match parseReqStr rq, parseParts ps with
+    | some r, some parts =>
+      showRes r (finalize r ((parts.map (collectSegEvict (M := Int) r)).foldl (merge r) (empty r)))
+    | _, _ => "bad-op"
+  | ["mergedfull", rq, ps] =>
+    -- the complete segment model: terms cut and composite eviction (C14_full_segment_model_exact)
+    match parseReqStr rq, parseParts ps with
+    | some r, some parts =>
+      showRes r (finalize r (mergeFruits r (parts.map (collectSegFull (M := Int) r))))
+    | _, _ => "bad-op"
+  | ["keyasc", rq, ps] =>
+    -- C14_terms_key_asc_exact_under_truncation / C14_terms_key_desc_exact_under_truncation: when the hypotheses hold, the truncated merged
+    -- segments show the buckets of the direct computation
+    match parseReqStr rq, parseParts ps with
+    | some (.terms p sub), some parts =>
+      if (p.order == .keyAsc || p.order == .keyDesc) && decide (p.size ≤ p.segSize) && decide (p.minDocCount ≤ 1) && sub.cutFree then
+        let a : Res Int (.terms p sub) := finalize (.terms p sub) (merged (.terms p sub) parts)
+        let b : Res Int (.terms p sub) := evalAggPV Int (.terms p sub) parts.flatten
+        if showRes (.terms p sub) (a.1, a.2.1, 0) == showRes (.terms p sub) (b.1, b.2.1, 0) then "same"
+        else "diff " ++ showRes (.terms p sub) a ++ " " ++ showRes (.terms p sub) b
+      else "n/a"
+    | _, _ => "n/a"
   | ["limit", n, rq, ps] =>
     match n.toNat?, parseReqStr rq, parseParts ps with
     | some n, some r, some parts =>
@@ -175,6 +222,31 @@ def handle : List String → String
       let p := TermsP.ofRequest 0 Option.none (size.map Int.toNat) (seg.map Int.toNat) (mdc.map Int.toNat) Option.none
       s!"{p.size} {p.segSize} {p.minDocCount} {Gen.AGG_DEFAULT_BUCKET_LIMIT}"
     | _, _, _ => "bad-op"
+  | ["extstats", sig4, ps] =>
+    -- extended_stats accumulator over exact rationals: one fruit per part (a part without values is
+    -- an `empty_from_req` placeholder with the default sigma), merged as collector.rs::merge_fruits
+    -- does (the last fruit is the accumulator); prints count sum sum_of_squares M2 sigma
+    match sig4.toInt?, (ps.splitOn "|").mapM (fun p => if p == "-" then some [] else (p.splitOn ",").mapM (fun v => v.toInt?)) with
+    | some s4, some parts =>
+      let σ : Rat := (s4 : Rat) / 4
+      let fruits : List ExtS := parts.map fun vs => if vs.isEmpty then ExtS.empty else ExtS.ofList σ (vs.map (fun (v : Int) => ((v : Int) : Rat)))
+      let r := match fruits.reverse with
+        | [] => ExtS.empty
+        | last :: restRev => restRev.reverse.foldl ExtS.merge last
+      s!"{r.count} {r.sum} {r.q} {r.m2} {r.sigma}"
+    | _, _ => "bad-op"
+  | ["normranges", rs] =>
+    -- ranges `from:to` separated by `;` (`_` = open end): the cut points of the normalised request or `err`
+    match (rs.splitOn ";").mapM (fun r => match r.splitOn ":" with
+        | [a, b] => match optInt a, optInt b with
+          | some a, some b => some (a, b)
+          | _, _ => Option.none
+        | _ => Option.none) with
+    | some ranges =>
+      match normRanges ranges with
+      | some bs => Proto.showIntList (cutsOf bs)
+      | Option.none => "err"
+    | Option.none => "bad-op"
   | ["histpos", iv, off, v] =>
     match iv.toInt?, off.toInt?, v.toInt? with
     | some iv, some off, some v => if iv ≤ 0 then "bad-op" else toString (histPos iv off v)
